@@ -252,6 +252,7 @@ def main():
     ap.add_argument("--limit", type=int, default=0)
     ap.add_argument("--files", default="")
     ap.add_argument("--out", default="mutation_survivors.json")
+    ap.add_argument("--only", default="", help="JSON list of {file, mutant}: run only these mutants")
     a = ap.parse_args()
     man = json.load(open(f"{V}/MANIFEST.json"))
     all_pids = [c["property_id"] for c in man["checks"]]
@@ -263,6 +264,9 @@ def main():
         src = open(os.path.join(SRC, rel)).read()
         for desc, new in mutants_of(src, rel):
             jobs.append((len(jobs), rel, desc, new, order))
+    if a.only:
+        keep = {(r["file"], r["mutant"]) for r in json.load(open(a.only))}
+        jobs = [j for j in jobs if (j[1], j[2]) in keep]
     if a.limit:
         jobs = jobs[:: max(1, len(jobs) // a.limit)][: a.limit]
     print(f"{len(jobs)} mutants over {len(files)} files", flush=True)
